@@ -229,6 +229,10 @@ impl RefTerm {
         for r in a.saturating_sub(1)..=b {
             ex.adopt_marks[r] = true;
         }
+        // (a row that was vacated is a NEW blank row: it carries no soft-wrap mark)
+        for &r in &ex.vacated {
+            ex.adopt_marks[r] = false;
+        }
         // rows that went into the scrollback were appended unchanged, mark included -
         // except the region's last row: its continuation (the row below the region)
         // stays behind, so whether it keeps its mark is not fixed by the statements
@@ -260,6 +264,9 @@ impl RefTerm {
         }
         for r in a.saturating_sub(1)..=b {
             ex.adopt_marks[r] = true;
+        }
+        for &r in &ex.vacated {
+            ex.adopt_marks[r] = false;
         }
     }
 
@@ -872,6 +879,10 @@ impl RefTerm {
                         6 => {
                             self.origin = true;
                             self.home();
+                            // "toggling origin mode homes the cursor" - exactly, whatever an
+                            // earlier entry of the same list left to be adopted
+                            ex.col = ColCmp::Exact;
+                            ex.row = RowCmp::Exact;
                         }
                         7 => self.awm = true,
                         25 => self.visible = true,
@@ -893,6 +904,8 @@ impl RefTerm {
                         6 => {
                             self.origin = false;
                             self.home();
+                            ex.col = ColCmp::Exact;
+                            ex.row = RowCmp::Exact;
                         }
                         7 => self.awm = false,
                         25 => self.visible = false,
